@@ -2,7 +2,9 @@
     Statements only.  Model/TlbHand.v extends the descriptor language of the
     reflection walker by: Hashmap / HashmapAug (HashmapE / HashmapAugE are
     compositions), VmStack, VmStackValue, VmStkTuple, VmCellSlice, VmCont,
-    Grams, SnakeData, Bytes, Text (with the UTF-8 check), FixedLengthText, BinTree, plain boc.Cell; cells carry their
+    Grams, SnakeData, Bytes, Text (with the UTF-8 check), FixedLengthText, BinTree, plain boc.Cell, and the
+    hash-first decoders Message / Transaction ([YHashed]: whether boc.Cell.Hash() succeeds is a parameter
+    [hash_ok] of the walker — an oracle column in the correspondence runs, arbitrary in the theorems); cells carry their
     kind (pruned branch / library shortcuts of Maybe, Either, Ref, "^", "maybe^").
     Data-driven recursion is structural on the cell tree (no fuel). *)
 From Coq Require Import List NArith ZArith Arith Lia Bool.
@@ -16,8 +18,8 @@ Local Open Scope N_scope.
     tree (any kinds, any bit lengths, any shape): a value or an error, never a
     panic *)
 Theorem C08_ext_decode_total :
-  forall env fuel t c p, fst (yunmarshal env fuel t c) <> Panic p.
-Proof. intros env fuel t c. apply np_spec. apply (yunmarshal_np env fuel t c). Qed.
+  forall env hash_ok fuel t c p, fst (yunmarshal env hash_ok fuel t c) <> Panic p.
+Proof. intros env hk fuel t c. apply np_spec. apply (yunmarshal_np env hk fuel t c). Qed.
 Print Assumptions C08_ext_decode_total.
 
 (** for closed descriptors nested no deeper than the fuel: the fuel is never
@@ -25,17 +27,17 @@ Print Assumptions C08_ext_decode_total.
     usz(descriptor) x size-in-bytes x height of the tree — nothing announced
     inside the data (depth, count, label or byte length) enters the bound *)
 Theorem C08_ext_decode_cost :
-  forall env fuel t, yfits fuel t = true -> forall c,
-  let r := yunmarshal env fuel t c in
+  forall env hash_ok fuel t, yfits fuel t = true -> forall c,
+  let r := yunmarshal env hash_ok fuel t c in
   fst r <> Err EFuel /\
   c_steps (snd r) + c_alloc (snd r) <= usz fuel t * tsz c * thg c.
 Proof.
-  intros env fuel t Hf c. cbv zeta. unfold yunmarshal.
-  pose proof (ydec_cost env (thg c) (thg_pos c) fuel t Hf (slice_of c) (mkct 0 0)) as H.
+  intros env hk fuel t Hf c. cbv zeta. unfold yunmarshal.
+  pose proof (ydec_cost env hk (thg c) (thg_pos c) fuel t Hf (slice_of c) (mkct 0 0)) as H.
   unfold dpost, wt in H. rewrite !cell_of_slice in H. specialize (H (N.le_refl _)).
   destruct H as [Hc Hr].
   split.
-  - destruct (fst (ydec env fuel t (slice_of c) (mkct 0 0)));
+  - destruct (fst (ydec env hk fuel t (slice_of c) (mkct 0 0)));
       [discriminate | intros E; inversion E; subst; apply Hr; reflexivity | contradiction].
   - unfold cost, wt in Hc. cbn [c_steps c_alloc] in Hc. lia.
 Qed.
@@ -43,14 +45,14 @@ Print Assumptions C08_ext_decode_cost.
 
 (** what is left unread is a suffix of what was there *)
 Theorem C08_ext_decode_suffix :
-  forall env fuel t, yfits fuel t = true -> forall c s',
-  fst (yunmarshal env fuel t c) = Ok s' ->
+  forall env hash_ok fuel t, yfits fuel t = true -> forall c s',
+  fst (yunmarshal env hash_ok fuel t c) = Ok s' ->
   (length (yb s') <= length (yb (slice_of c)))%nat /\ exists pre, yr (slice_of c) = pre ++ yr s'.
 Proof.
-  intros env fuel t Hf c s' E.
-  pose proof (ydec_cost env (thg c) (thg_pos c) fuel t Hf (slice_of c) (mkct 0 0)) as H.
+  intros env hk fuel t Hf c s' E.
+  pose proof (ydec_cost env hk (thg c) (thg_pos c) fuel t Hf (slice_of c) (mkct 0 0)) as H.
   unfold dpost, wt in H. rewrite !cell_of_slice in H. specialize (H (N.le_refl _)).
-  destruct H as [_ Hr]. fold (yunmarshal env fuel t c) in Hr. rewrite E in Hr. exact Hr.
+  destruct H as [_ Hr]. fold (yunmarshal env hk fuel t c) in Hr. rewrite E in Hr. exact Hr.
 Qed.
 
 (** ** VmStack: getStackListItems *)
@@ -92,14 +94,14 @@ Proof. intros b Hb. apply np_spec. apply vmstack_unmarshal_tl_full_total. exact 
 (** mapInner on any cell tree with any value / extra decoder that satisfies
     its own bound: linear in size x height, any key size *)
 Theorem C08_hashmap_cost :
-  forall env fuel n vsz v, yfits fuel v = true -> forall c,
-  let r := yunmarshal env (S fuel) (YHashmap n vsz v) c in
+  forall env hash_ok fuel n vsz v, yfits fuel v = true -> forall c,
+  let r := yunmarshal env hash_ok (S fuel) (YHashmap n vsz v) c in
   (forall p, fst r <> Panic p) /\ fst r <> Err EFuel /\
   c_steps (snd r) + c_alloc (snd r) <= (1 + hm_k n vsz (usz fuel v) 0) * tsz c * thg c.
 Proof.
-  intros env fuel n vsz v Hf c r.
+  intros env hk fuel n vsz v Hf c r.
   assert (Hfit : yfits (S fuel) (YHashmap n vsz v) = true) by exact Hf.
-  destruct (C08_ext_decode_cost env (S fuel) _ Hfit c) as [H1 H2].
+  destruct (C08_ext_decode_cost env hk (S fuel) _ Hfit c) as [H1 H2].
   repeat split; [apply C08_ext_decode_total | exact H1 | exact H2].
 Qed.
 
@@ -132,5 +134,5 @@ Example C08_ext_satisfiable :
   let t := YMaybe (YRef (YHashmap 2 9 (YUint 8))) in
   let leaf (k : bool) (v : N) := XT 0 ([true; false] ++ bits_of 1 1 ++ [k] ++ bits_of 8 v) [] in
   let root := XT 0 ([true; false] ++ bits_of 2 0) [leaf false 7; leaf true 9] in
-  yfits 4 t = true /\ exists s, fst (yunmarshal [] 4 t (XT 0 [true] [root])) = Ok s.
+  yfits 4 t = true /\ exists s, fst (yunmarshal [] (fun _ => true) 4 t (XT 0 [true] [root])) = Ok s.
 Proof. vm_compute. split; [reflexivity | eexists; reflexivity]. Qed.
